@@ -138,6 +138,14 @@ type handleState struct {
 
 var curHandle *handleState
 
+// connOf: the connection an operation went over.
+func connOf(sc *Scenario, o *opRec) string {
+	if o.Conn != "" {
+		return o.Conn
+	}
+	return sc.Conns[o.Thread]
+}
+
 func isPush(v model.Val) bool {
 	return v.K == model.Array && len(v.Arr) == 3 && v.Arr[0].IsStr() && string(v.Arr[0].S) == "message"
 }
@@ -169,7 +177,7 @@ func mkHandleInstance(sc *Scenario) (*explorer.Instance, *runState) {
 	}
 	// one handler thread per connection (background: it never ends by itself)
 	var names []string
-	for _, cn := range sc.Conns {
+	for _, cn := range append(append([]string{}, sc.Conns...), sc.ExtraConns...) {
 		if cn == "" || rs.conns[cn] != nil {
 			continue
 		}
@@ -189,7 +197,7 @@ func mkHandleInstance(sc *Scenario) (*explorer.Instance, *runState) {
 		in.Threads = append(in.Threads, func() {
 			cn := sc.Conns[ti]
 			conn := rs.conns[cn]
-			await := func(r *opRec, a []string) bool {
+			await := func(conn *h.Conn, cn string, r *opRec, a []string) bool {
 				for {
 					w.Point(rt.Op{Kind: rt.OpIO, Obj: conn, Enabled: conn.ReplyReady})
 					raw, v, st := conn.TryTakeReply()
@@ -216,7 +224,7 @@ func mkHandleInstance(sc *Scenario) (*explorer.Instance, *runState) {
 				var stream []byte
 				for _, c := range prog {
 					a := subst(c)
-					recs = append(recs, &opRec{Thread: ti, Args: a})
+					recs = append(recs, &opRec{Thread: ti, Conn: cn, Args: a})
 					stream = append(stream, model.EncodeCommand(h.B(a...))...)
 				}
 				yield()
@@ -230,7 +238,7 @@ func mkHandleInstance(sc *Scenario) (*explorer.Instance, *runState) {
 					if i > 0 {
 						r.After = recs[i-1]
 					}
-					if !await(r, r.Args) {
+					if !await(conn, cn, r, r.Args) {
 						return
 					}
 				}
@@ -239,19 +247,26 @@ func mkHandleInstance(sc *Scenario) (*explorer.Instance, *runState) {
 			}
 			for _, c := range prog {
 				a := subst(c)
+				// "cN:COMMAND ..." - this step goes over connection cN (a driver thread that talks over
+				// several connections in a fixed order: the steps are sequential, the handlers are not)
+				cn, conn := cn, conn
+				if i := strings.Index(a[0], ":"); i > 0 && rs.conns[a[0][:i]] != nil {
+					cn, conn = a[0][:i], rs.conns[a[0][:i]]
+					a = append([]string{a[0][i+1:]}, a[1:]...)
+				}
 				if a[0] == "@eof" {
 					// the client goes away: the handler will close the connection at some later point
-					rs.ops = append(rs.ops, &opRec{Thread: ti, Call: w.Steps, Ret: w.Steps, Done: true, Args: a})
+					rs.ops = append(rs.ops, &opRec{Thread: ti, Conn: cn, Call: w.Steps, Ret: w.Steps, Done: true, Args: a})
 					conn.EOF()
 					yield()
 					continue
 				}
-				r := &opRec{Thread: ti, Call: w.Steps, Args: a}
+				r := &opRec{Thread: ti, Conn: cn, Call: w.Steps, Args: a}
 				rs.ops = append(rs.ops, r)
 				yield()
 				r.Call = w.Steps
 				conn.Send(model.EncodeCommand(h.B(a...)))
-				if !await(r, a) {
+				if !await(conn, cn, r, a) {
 					return
 				}
 				yield()
@@ -325,7 +340,7 @@ func checkHandle(sc *Scenario, rs *runState, out *explorer.Outcome) []cviol {
 			}
 		case "subscribe":
 			for _, ch := range o.Args[1:] {
-				subscribed[sc.Conns[o.Thread]+"\x00"+ch] = true
+				subscribed[connOf(sc, o)+"\x00"+ch] = true
 			}
 		}
 	}
@@ -345,7 +360,7 @@ func checkHandle(sc *Scenario, rs *runState, out *explorer.Outcome) []cviol {
 	var pops []lin.Op
 	hasPub := false
 	for _, o := range rs.ops {
-		conn := sc.Conns[o.Thread]
+		conn := connOf(sc, o)
 		switch strings.ToLower(o.Args[0]) {
 		case "subscribe":
 			for _, ch := range o.Args[1:] {
@@ -387,7 +402,7 @@ func checkHandle(sc *Scenario, rs *runState, out *explorer.Outcome) []cviol {
 		if name == "subscribe" || name == "publish" || name == "@eof" {
 			continue
 		}
-		op := lin.Op{Thread: o.Thread, Call: o.Call, Ret: o.Ret, Pending: !o.Done, In: hIn{Conn: hs.nConn[sc.Conns[o.Thread]], Args: h.B(o.Args...)}}
+		op := lin.Op{Thread: o.Thread, Call: o.Call, Ret: o.Ret, Pending: !o.Done, In: hIn{Conn: hs.nConn[connOf(sc, o)], Args: h.B(o.Args...)}}
 		if o.After != nil {
 			if j, ok := linIndex[o.After]; ok {
 				op.After = j + 1
@@ -454,7 +469,7 @@ func raceHandle(sc *Scenario, reps int) {
 		}
 		ctx, cancel := context.WithCancel(bg)
 		conns := map[string]*h.Conn{}
-		for _, cn := range sc.Conns {
+		for _, cn := range append(append([]string{}, sc.Conns...), sc.ExtraConns...) {
 			if cn != "" && conns[cn] == nil {
 				conns[cn] = h.NewConn(cn)
 				go mgr.Handle(ctx, conns[cn])
@@ -469,6 +484,11 @@ func raceHandle(sc *Scenario, reps int) {
 				<-start
 				for _, c := range prog {
 					a := subst(c)
+					conn := conn
+					if i := strings.Index(a[0], ":"); i > 0 && conns[a[0][:i]] != nil {
+						conn = conns[a[0][:i]]
+						a = append([]string{a[0][i+1:]}, a[1:]...)
+					}
 					if a[0] == "@eof" {
 						conn.EOF()
 						continue
@@ -541,6 +561,14 @@ func handleScenarios() []*Scenario {
 	// a subscriber leaves while another one stays and messages keep being published
 	add("C19", "h:C19:subscriber-leaves-other-stays", 1, nil, []string{"c1", "c2", "c3"},
 		th(c("SUBSCRIBE", "ch"), c("@eof")), th(c("SUBSCRIBE", "ch")), th(c("PUBLISH", "ch", "m1"), c("PUBLISH", "ch", "m2"), c("PUBLISH", "ch", "m3")))
+	// a sequential story over five connections (one driver thread; the five handlers and parsers run
+	// when the scheduler lets them): three subscribers, the first leaves, a publish meets the dead
+	// connection, a newcomer subscribes, two more publishes - everybody still subscribed gets them
+	s = append(s, &Scenario{ID: "h:C19:leave-publish-newcomer-publish", Prop: "C19", ViaHandle: true, DBs: 1, Atomic: true,
+		Conns:      []string{"c1"},
+		ExtraConns: []string{"c2", "c3", "c4", "c5"},
+		Threads: [][][]string{th(c("c1:SUBSCRIBE", "ch"), c("c2:SUBSCRIBE", "ch"), c("c3:SUBSCRIBE", "ch"), c("c1:@eof"), c("c5:PUBLISH", "ch", "m1"),
+			c("c4:SUBSCRIBE", "ch"), c("c5:PUBLISH", "ch", "m2"), c("c5:PUBLISH", "ch", "m3"))}})
 	// pipelines: a connection's commands arrive in one chunk; the parser goroutine runs ahead of the
 	// handler (what it has parsed must stay intact while the handler still executes earlier commands)
 	pipe := func(prop, id string, conns []string, threads ...[][]string) {
